@@ -91,6 +91,22 @@ Classes closed (generator strata + oracle clauses; Lean: Proofs/C17Shape.lean an
       (t == max) | IP categories | constant input.
       Not reached through this harness: the sign-split ('+/-') branches of stacked cumulative hourly / monthly-per-
       hour bands (only non-cumulative temperature data is drawn as lines), hour / month label geometry.
+
+Round 6 (argument paths of one shared check)
+--------------------------------------------
+Class: a side effect of a helper that serves SEVERAL ARGUMENTS (PsychrometricChart._check_input / _check_datacoll store
+the hours one value stands for and the number of values, for the temperature and for the humidity) is moved to the
+caller or kept on one argument path only: the answer is then right for some pairs of input forms and wrong for others.
+Closed by the op `pforms` (generator + oracle + correspondence): every pair of input FORMS - a number, text of a
+number, HourlyContinuousCollection at each of the 12 timesteps, HourlyDiscontinuousCollection at 7 timesteps (few samples,
+any order), DailyCollection - with the collection on the temperature side, on the humidity side, or on both.  Oracle,
+from the statement ("cells count exactly the HOURS ..."): a cell holds its number of values times the hours one value
+of that form stands for (24 for a daily value, 1 / timestep for an hourly one), the cells add up to the hours of the
+on-chart data, one face per non-empty cell, and the sibling argument paths (the constant side handed over as a
+collection of the same form) give the same hours.  Model: PlotObj.PForm / hoursPerValue / cellHours (driver op
+`pforms`); theorems C17_psych_hours_either_argument, _hours_of_form, _hours_later_collection, _cell_hours, _hours_sum.
+Not judged: two collections of DIFFERENT forms (the statement does not say which one gives the hours; the code takes
+the humidity's), two numbers (one value, counted as one hour).
 """
 import contextlib
 import io
@@ -146,7 +162,7 @@ ASSUMPTIONS = [
     'integer bound); on a tree without it the TypeError is reported as finding C17-windrose-default-hours-cut',
     'psychrometric chart: SI only in the model (IP temperature categories are float-accumulated; oracle only)',
 ]
-LEVEL_TEXT = ('Machine-checked Lean 4 theorems (40) over an executable model of the data placement of HourlyPlot, '
+LEVEL_TEXT = ('Machine-checked Lean 4 theorems (45) over an executable model of the data placement of HourlyPlot, '
               'histogram/histogram_circular, WindRose, MonthlyChart bars and PsychrometricChart cells, for all inputs '
               'of each clause: the hourly mesh of a non-wrapping period (any hour window incl. overnight, all 12 '
               'timesteps, leap or not; continuous, windowed and sparse data; y axis normal and reversed) has one face '
@@ -2082,6 +2098,12 @@ def _correspondence(ctx):
         if any(t < c['min'] or t > c['max'] for t in c['t']):
             ctx.count('branch:psych hour off the chart')
     compare_batch(ctx, 'psych', pc, _psy_line, _psy_impl, key=lambda c: repr(c))
+    # round 6: hours per cell for every pair of input forms (model: PlotObj.cellHours / hoursPerValue)
+    fc = list(PF_CORPUS) + [_pf_case(rng, k, pr) for k in PF_KINDS for pr in ('t_const', 'rh_const')] + \
+        [_pf_case(rng) for _ in range(ctx.n(60, 600))]
+    for c in fc:
+        ctx.count('pforms:t=%s rh=%s' % (c['tform'][0], c['rhform'][0]))
+    compare_numeric(ctx, 'pforms', fc, _pf_line, _pf_impl, key=lambda c: repr(c))
     _correspondence_histories(ctx)
 
 
@@ -2880,6 +2902,174 @@ def _check_psych2(inp):
     return None
 
 
+# ---- round 6: every pair of input FORMS of the psychrometric chart (number | text | hourly at any timestep |
+# discontinuous | daily, on either argument) - cells hold HOURS: samples x the hours one value stands for
+
+PF_KINDS = [['hourly', ts] for ts in ALL_TS] + [['disc', ts] for ts in (1, 2, 3, 4, 6, 12, 60)] + [['daily']] * 6
+
+
+def _pf_hours(form):
+    """Hours one value of a collection of this form stands for (from the statement: a daily value is a day,
+    a value at timestep ts is 1/ts of an hour)."""
+    return Fraction(24) if form[0] == 'daily' else Fraction(1, form[1])
+
+
+def _pf_case(rng, kind=None, pairing=None):
+    kind = list(kind or rng.choice(PF_KINDS + [['hourly', 1]]))
+    pairing = pairing or rng.choice(['t_const', 't_const', 'rh_const', 'both'])
+    mn = rng.choice([-20, 0, -5, 10])
+    mx = mn + rng.choice([10, 30, 25])
+    c = {'min': mn, 'max': mx}
+    if kind[0] == 'daily':
+        n = rng.choice([1, 2, 5, 10, 31, 40])
+    elif kind[0] == 'hourly':
+        c['days'] = rng.choice([1, 1, 2] if kind[1] <= 4 else [1])   # (a continuous collection holds whole days)
+        n = 24 * c['days'] * kind[1]
+    else:
+        step = 60 // kind[1]
+        moys = rng.sample(range(0, 1440, step), rng.choice([1, 2, 7, min(20, 1440 // step)]))
+        if rng.random() < 0.6:
+            moys.sort()
+        c['moys'] = moys
+        n = len(moys)
+
+    def temp():
+        q = rng.random()
+        return float(rng.randrange(mn, mx + 1)) if q < 0.4 else \
+            rng.choice([float(mn), float(mx), mx - 2.0 ** -20, mn - 1.0, mx + 1.5]) if q < 0.5 else \
+            round(rng.uniform(mn - 1, mx + 1), 1)
+
+    def hum():
+        q = rng.random()
+        return float(rng.choice(range(0, 105, 5))) if q < 0.4 else round(rng.uniform(0, 100), 1)
+    c['t'] = [temp() for _ in range(n)]
+    c['rh'] = [hum() for _ in range(n)]
+    const = ['text', rng.choice(['plain', 'exp', 'blank', 'plus'])] if rng.random() < 0.25 else ['const']
+    if pairing == 't_const':
+        c['t'] = [float(rng.choice([mn, mx, mn + 3.5, mn + 7]))] * n
+        c['tform'], c['rhform'] = const, kind
+    elif pairing == 'rh_const':
+        c['rh'] = [rng.choice([0.0, 50.0, 100.0, 37.5])] * n
+        c['tform'], c['rhform'] = kind, const
+    else:
+        c['tform'], c['rhform'] = kind, list(kind)
+    return c
+
+
+PF_CORPUS = [
+    {'min': -20, 'max': 50, 'days': 1, 't': [22.0] * 96, 'rh': [30.0 + 0.5 * i for i in range(96)],
+     'tform': ['const'], 'rhform': ['hourly', 4]},
+    {'min': -20, 'max': 50, 'days': 1, 't': [-21.0 + 0.75 * i for i in range(96)], 'rh': [50.0] * 96,
+     'tform': ['hourly', 4], 'rhform': ['const']},
+    {'min': -20, 'max': 50, 't': [18.0] * 5, 'rh': [40.0, 41.0, 47.0, 52.0, 70.0], 'tform': ['const'], 'rhform': ['daily']},
+    {'min': -20, 'max': 50, 't': [18.0, 18.5, 3.0, -4.0, 25.0], 'rh': [65.0] * 5, 'tform': ['daily'], 'rhform': ['text', 'exp']},
+    {'min': 0, 'max': 30, 'moys': [30, 0, 720, 750], 't': [12.0] * 4, 'rh': [10.0, 12.0, 55.0, 99.0],
+     'tform': ['text', 'blank'], 'rhform': ['disc', 2]},
+]
+
+
+def _pf_collection(form, c, values, is_t):
+    from ladybug.analysisperiod import AnalysisPeriod
+    from ladybug.datacollection import HourlyContinuousCollection, HourlyDiscontinuousCollection, DailyCollection
+    from ladybug.header import Header
+    from ladybug.datatype.temperature import Temperature
+    from ladybug.datatype.fraction import RelativeHumidity
+    from ladybug.dt import DateTime
+    dtype, unit = (Temperature(), 'C') if is_t else (RelativeHumidity(), '%')
+    n = len(values)
+    if form[0] == 'daily':
+        ap = AnalysisPeriod(1, 1, 0, 1, n, 23) if n <= 31 else AnalysisPeriod(1, 1, 0, 2, n - 31, 23)
+        return DailyCollection(Header(dtype, unit, ap), list(values), list(range(1, n + 1)))
+    if form[0] == 'hourly':
+        ap = AnalysisPeriod(1, 1, 0, 1, c['days'], 23, form[1])
+        return HourlyContinuousCollection(Header(dtype, unit, ap), list(values))
+    ap = AnalysisPeriod(1, 1, 0, 1, 1, 23, form[1])
+    dts = [DateTime(1, 1, m // 60, m % 60) for m in c['moys']]
+    return HourlyDiscontinuousCollection(Header(dtype, unit, ap), list(values), dts)
+
+
+def _pf_arg(form, c, values, is_t):
+    if form[0] == 'const':
+        return values[0]
+    if form[0] == 'text':
+        return _num_text(values[0], form[1])
+    return _pf_collection(form, c, values, is_t)
+
+
+def _build_pf(c, tform=None, rhform=None):
+    from ladybug.psychchart import PsychrometricChart
+    t = _pf_arg(tform or c['tform'], c, c['t'], True)
+    rh = _pf_arg(rhform or c['rhform'], c, c['rh'], False)
+    return PsychrometricChart(t, rh, 101325, None, min_temperature=c['min'], max_temperature=c['max'])
+
+
+def _pf_kind(c):
+    return c['rhform'] if c['rhform'][0] in ('hourly', 'disc', 'daily') else c['tform']
+
+
+def _pf_tok(form):
+    return 'daily' if form[0] == 'daily' else 'hourly %d' % form[1] if form[0] in ('hourly', 'disc') else 'const'
+
+
+def _pf_line(c):
+    return 'pforms %s %s %d %d %d %s' % (_pf_tok(c['tform']), _pf_tok(c['rhform']), c['min'], c['max'], len(c['t']),
+                                         ' '.join('%s %s' % (_fr(t), _fr(r)) for t, r in zip(c['t'], c['rh'])))
+
+
+def _pf_impl(c):
+    ch = _build_pf(c)
+    cells = _psy_faces(ch, c)
+    hv = ch.hour_values
+    if len(hv) != len(cells):
+        return 'err:value'
+    return ('ok %d ' % len(cells)) + ' '.join('%d %d %r' % (y, x, float(v)) for (y, x), v in zip(cells, hv))
+
+
+def _check_pforms(inp):
+    kind = _pf_kind(inp)
+    sig = {'tform': inp['tform'][0], 'rhform': inp['rhform'][0],
+           'per_value': 'day' if kind[0] == 'daily' else 'hour' if kind[1] == 1 else 'sub-hour'}
+    per = _pf_hours(kind)
+    want = dict((k, len(v)) for k, v in _psy_want(inp).items())
+    try:
+        ch = _build_pf(inp)
+    except AssertionError as e:
+        return None if not want else {'required': 'a chart', 'observed': 'AssertionError %s' % str(e)[:80],
+                                      'sig': dict(sig, clause='builds')}
+    mtx = ch.time_matrix
+    for y, row in enumerate(mtx):
+        for x, cnt in enumerate(row):
+            if cnt != want.get((y, x), 0):
+                return {'required': 'cell rh row %d, temperature column %d holds %d values' % (y, x, want.get((y, x), 0)),
+                        'observed': cnt, 'sig': dict(sig, clause='cell')}
+    e = [float(want[k] * per) for k in sorted(want)]
+    hv = [float(v) for v in ch.hour_values]
+    if len(hv) != len(e) or any(abs(a - b) > 1e-9 * max(1.0, abs(b)) for a, b in zip(hv, e)):
+        bad = next((k for k, (a, b) in enumerate(zip(hv, e)) if abs(a - b) > 1e-9 * max(1.0, abs(b))), 0)
+        cell = sorted(want)[bad] if bad < len(want) else None
+        return {'required': 'cell %s holds %d value(s) of %s h each = %s h; all cells: %s' % (
+                    cell, want.get(cell, 0), per, e[bad] if bad < len(e) else None, e[:12]),
+                'observed': str(hv[:12]), 'sig': dict(sig, clause='hours')}
+    total = float(sum(want.values()) * per)
+    if abs(sum(hv) - total) > 1e-9 * max(1.0, total):
+        return {'required': '%s hours on the chart' % total, 'observed': sum(hv), 'sig': dict(sig, clause='hours_sum')}
+    if _psy_faces(ch, inp) != sorted(want):
+        return {'required': 'one face per non-empty cell', 'observed': '%d faces' % len(ch.colored_mesh.faces),
+                'sig': dict(sig, clause='faces')}
+    # the sibling argument paths: the same data with the constant side handed over as a collection of the same
+    # form, and with the two collections built a second time, fill the same cells with the same hours
+    try:
+        ch2 = _build_pf(inp, kind, kind)
+        hv2 = [float(v) for v in ch2.hour_values]
+        if ch2.time_matrix != mtx or len(hv2) != len(hv) or any(abs(a - b) > 1e-9 * max(1.0, abs(b)) for a, b in zip(hv2, hv)):
+            return {'required': 'the same hours whichever argument is the collection: %s' % hv[:12],
+                    'observed': str(hv2[:12]), 'sig': dict(sig, clause='argument_paths')}
+    except Exception as e:
+        return {'required': 'a chart of two collections', 'observed': 'raises %s' % type(e).__name__,
+                'sig': dict(sig, clause='argument_paths', error=type(e).__name__)}
+    return None
+
+
 # ---- process order: a slice of the oracle stream in fresh interpreters, in different orders
 
 _WORKER_CODE = ('import sys; sys.path.insert(0, %r); from harness.props import c17; c17._worker_main()')
@@ -2982,6 +3172,8 @@ def _rarity(case):
                 len(inp['moys']) != 1)
     if op == 'psych2':
         return (2, inp['variant'])
+    if op == 'pforms':
+        return (2, 'a-forms', _pf_kind(inp)[0] == 'hourly' and _pf_kind(inp)[1] == 1, inp['tform'][0])
     if op == 'wrose':
         return (3, inp['n'] in (4, 8, 16), not inp.get('sparse'))
     if op == 'bars':
@@ -3035,6 +3227,10 @@ def _order_slice(ctx, rng):
         out.append(['psych2', _psy2_case(rng, v)])
     for _ in range(8):
         out.append(['mlines', _ml_case(rng)])
+    for c in PF_CORPUS:
+        out.append(['pforms', c])
+    for _ in range(12):
+        out.append(['pforms', _pf_case(rng)])
     for _ in range(3):
         out.append(['whist', _wrh_case(rng, default_cut=True)])
     return out
@@ -3096,6 +3292,8 @@ def check_case(op, inp):
         return _check_psych(inp)
     if op == 'psych2':
         return _check_psych2(inp)
+    if op == 'pforms':
+        return _check_pforms(inp)
     if op == 'mlines':
         return _check_mlines(inp)
     if op == 'whist':
@@ -3153,6 +3351,13 @@ def _oracle_cases(ctx):
         yield 'psych', _psy_case(rng)
     for _ in range(400 if big else 60):
         yield 'psych2', _psy2_case(rng)
+    for c in PF_CORPUS:
+        yield 'pforms', c
+    for kind in PF_KINDS:                        # every form on either argument path
+        yield 'pforms', _pf_case(rng, kind, 't_const')
+        yield 'pforms', _pf_case(rng, kind, 'rh_const')
+    for _ in range(500 if big else 60):
+        yield 'pforms', _pf_case(rng)
     # histories on one object
     for c in WRH_CORPUS:
         yield 'whist', c
@@ -3194,6 +3399,10 @@ def _count_strata(ctx, op, inp):
             ctx.count('stratum:wrose all calm')
     elif op == 'psych2':
         ctx.count('stratum:psych ' + inp['variant'])
+    elif op == 'pforms':
+        ctx.count('stratum:psych forms t=%s rh=%s' % (inp['tform'][0], inp['rhform'][0]))
+        k = _pf_kind(inp)
+        ctx.count('stratum:psych hours per value: %s' % ('24 (daily)' if k[0] == 'daily' else '1/%d' % k[1]))
     elif op == 'mlines':
         ctx.count('stratum:mlines %s%s' % ('hourly' if inp['hourly'] else 'monthly-per-hour',
                                            ' wrapping' if inp['period'][0] > inp['period'][3] else ''))
@@ -3204,7 +3413,7 @@ def _count_strata(ctx, op, inp):
 
 
 _FAMILY = {'hp': 'hp', 'hhist': 'hp', 'mlines': 'bars', 'hist': 'wr', 'circ': 'wr', 'wrose': 'wr', 'whist': 'wr', 'bars': 'bars',
-           'bhist': 'bars', 'psych': 'psy', 'psych2': 'psy', 'phist': 'psy'}
+           'bhist': 'bars', 'psych': 'psy', 'psych2': 'psy', 'phist': 'psy', 'pforms': 'psy'}
 
 
 def _confirm_failures(ctx, trail):
